@@ -23,15 +23,19 @@
                      triangle-inequality lemmas behind each pruning test; covertree_model_exact_partial
                      composes this with the selection.  PARTIAL: the audit flag (upper_bound[0] is
                      a valid bound whenever it is read, in the strengthened form copy_* needs) is
-                     evaluated by the extracted model on every run, not proved; neither is the
-                     construction of the tree (ct_inv_b is checked on every dumped tree).
+                     evaluated by the extracted model on every run, not proved (on real trees it is
+                     false for about 1 query in 1000: then the theorem makes no claim and only the
+                     run-time check of the real candidate list remains); neither is the construction
+                     of the tree (ct_inv_b is checked on every dumped tree).  ct_query_rows /
+                     ct_query_total: one row per sample, never out of fuel (no hypothesis on d).
+                     ct_scale100_refuted: the model reproduces defect F25 on the tree the old code built.
      *_checked_*     the same theorems with their hypotheses replaced by the boolean
                      checkers the harness runs on what it observes (dumped real VP-tree,
                      observed nth_element result, observed candidate list). *)
 From Coq Require Import List ZArith Bool Lia Permutation Sorted.
 From TK Require Import Knn_Spec Knn_Brute_Model Knn_Brute_Proof Knn_VpTree_Model Knn_VpTree_Proof
                        Knn_CoverSel_Model Knn_CoverSel_Proof CoverTree_Model CoverTree_Proof CoverTree_Proof_Total
-                       Knn_CoverQuery_Proof.
+                       CoverTree_Refuted Knn_CoverQuery_Proof.
 Import ListNotations.
 Local Open Scope Z_scope.
 
@@ -363,3 +367,16 @@ Print Assumptions ct_query_total.
 
 Example ct_query_total_nonvacuous : leaf100_b grid9_ctree = true.
 Proof. vm_compute. reflexivity. Qed.
+
+(* regression for F25: the model query on the tree built by the pre-fix batch_insert (dumped from the
+   reverted source) loses the coincident samples exactly as the real query did; ct_inv_b rejects it *)
+Theorem ct_scale100_refuted :
+  metric_b f25_d 4 = true /\
+  ct_holds_b 4 f25_old_tree = true /\ ct_inv_b f25_d f25_old_tree = false /\
+  ct_query f25_d 2 no_audit (ct_fuel f25_old_tree) f25_old_tree
+    = Some ([(3, [3]); (2, [0]); (1, [0]); (0, [0])], true) /\
+  ct_inv_b f25_d f25_new_tree = true /\
+  ct_query f25_d 2 (valid_b f25_d (leaf_points f25_new_tree) 2) (ct_fuel f25_new_tree) f25_new_tree
+    = Some ([(3, [3; 2; 1]); (1, [2; 1]); (2, [2; 1]); (0, [0; 2; 1])], true).
+Proof. exact ct_scale100_refuted_lemma. Qed.
+Print Assumptions ct_scale100_refuted.
